@@ -7,7 +7,7 @@ Open Scope Z_scope.
 
 Record vent := {
   ve_kind : skind;
-  ve_perm : Z;             (* permission bits *)
+  ve_perm : Z;             (* the 12 unix mode bits: permissions + setuid, setgid, sticky *)
   ve_size : Z;
   ve_layer : nat;          (* chain layer that introduced the entry: determines the content *)
   ve_dest : list seg }.    (* links: where the target points, lexically *)
@@ -22,7 +22,7 @@ Definition vent_eqb (a b : vent) : bool :=
 Definition vent_of_node (n : fnode) : option vent :=
   if fn_wh n then None
   else Some {| ve_kind := if fn_is_dir n then SKDir else if fn_is_symlink n then SKSym else SKReg;
-               ve_perm := Z.land (fn_mode n) 511;
+               ve_perm := unix_mode_of (fn_mode n);
                ve_size := fn_size n;
                ve_layer := fn_origin n;
                ve_dest := if fn_is_symlink n then real_segs (fn_target n) else [] |}.
